@@ -80,3 +80,17 @@ Theorem C05_generated_shift : forall (T : Type) (ep : bool) nu (X : dmat T),
   = (map_episodes ep (gen_shift_unshifted_ep T nu) X, map_episodes ep (gen_shift_shifted_ep T nu) X).
 Proof. exact gen_shift_episodes_model. Qed.
 Print Assumptions C05_generated_shift.
+
+(* KoopmanRegressor.fit as REGENERATED from the source on this run (tools/gen_frames.py): without `y` the arrays
+   handed to the concrete solver are the two results of shift_episodes called with the given n_inputs and episode flag,
+   label column removed; their rows, paired by position, are exactly the training pairs about which the theorems
+   above speak; with `y` they are (X, y) *)
+From PK Require Import ShiftFacts BridgeFrames.
+From PK.Gen Require Import FramesGen.
+Theorem C05_generated_fit_arguments : forall (T : Type) (ep : bool) (nu : nat) (X Y : dmat T)
+    (sh : dmat T -> dmat T * dmat T),
+  (let args := gen_regressor_fit_arguments T (shift_episodes ep nu) None X in
+   PyList.zip (fst args) (snd args) = training_pairs ep nu X)
+  /\ gen_regressor_fit_arguments T sh (Some Y) X = (rows X, rows Y).
+Proof. intros. split; [apply gen_regressor_fit_arguments_model | apply gen_regressor_fit_arguments_explicit]. Qed.
+Print Assumptions C05_generated_fit_arguments.
